@@ -86,6 +86,7 @@ func runC16(c *Ctx, r *Report) {
 	defer c16r10(c, r)
 	defer c16r11(c, r)
 	defer c16r12(c, r)
+	defer c16r15(c, r)
 	h := l.Fn("fzf", "(*httpServer).handleHttpRequest")
 	start := l.Fn("fzf", "startHttpServer")
 	fApiKey := l.Field("fzf", "httpServer", "apiKey")
